@@ -55,14 +55,14 @@ theorem planBase_direct (kw : KW) (k : Key) (v : PVal) (hc : cleanName k = true)
     planBase kw [(k, v)] = .ok { kw := replaceKey k v kw, groups := [] } := by
   unfold planBase
   rw [foldlM_single]
-  simp only [splitFirst_clean_none k hc, hk, ↓reduceIte]
+  simp only [baseStep, splitFirst_clean_none k hc, hk, ↓reduceIte]
 
 theorem planBase_nested (kw : KW) (name s : Key) (v : PVal) (hc : cleanName name = true)
     (hk : (keys kw).contains name = true) :
     planBase kw [(name ++ sep2 ++ s, v)] = .ok { kw := kw, groups := [(.slot name, [(s, v)])] } := by
   unfold planBase
   rw [foldlM_single]
-  simp only [splitFirst_clean name s hc, hk, ↓reduceIte, addTo]
+  simp only [baseStep, splitFirst_clean name s hc, hk, ↓reduceIte, addTo]
 
 theorem skbaseSet_existing (kw : KW) (k : Key) (v : PVal) (hk : (keys kw).contains k = true)
     (hn : (keys kw).all skNameOk = true) :
@@ -1236,5 +1236,153 @@ theorem run_refines : ∀ (ops : List Op) (s : State), wf s.obj = true → valid
     obtain ⟨h1, h2⟩ := step_refines s op hw hv.1
     obtain ⟨h3, h4⟩ := ih (step s op).1 h2 hv.2
     exact ⟨AbsRun.cons h1 h3, h4⟩
+
+/-! ### transfer, configurations without nested estimators -/
+
+theorem replaceKey_cons_ne (k k' : Key) (v v' : PVal) (tl : KW) (h : k' ≠ k) :
+    replaceKey k v ((k', v') :: tl) = (k', v') :: replaceKey k v tl := by
+  simp [replaceKey, h]
+
+theorem foldl_replaceKey_cons (vals : KW) (k : Key) (v : PVal) (tl : KW) (h : ∀ kv ∈ vals, kv.1 ≠ k) :
+    vals.foldl (fun a kv => replaceKey kv.1 kv.2 a) ((k, v) :: tl)
+      = (k, v) :: vals.foldl (fun a kv => replaceKey kv.1 kv.2 a) tl := by
+  induction vals generalizing tl with
+  | nil => rfl
+  | cons hd rest ih =>
+    simp only [List.foldl_cons]
+    rw [replaceKey_cons_ne _ _ _ _ _ (Ne.symm (h hd (by simp)))]
+    exact ih _ (fun kv hkv => h kv (by simp [hkv]))
+
+/-- assigning every slot of a parameter list with the same names yields exactly the assigned list -/
+theorem foldl_replaceKey_all (kw1 kw2 : KW) (hk : keys kw1 = keys kw2) (hnd : (keys kw1).Nodup) :
+    kw1.foldl (fun a kv => replaceKey kv.1 kv.2 a) kw2 = kw1 := by
+  induction kw1 generalizing kw2 with
+  | nil =>
+    cases kw2 with
+    | nil => rfl
+    | cons _ _ => simp [keys] at hk
+  | cons hd tl ih =>
+    obtain ⟨k, v⟩ := hd
+    cases kw2 with
+    | nil => simp [keys] at hk
+    | cons hd2 tl2 =>
+      obtain ⟨k2, v2⟩ := hd2
+      simp only [keys, List.map_cons, List.cons.injEq] at hk
+      obtain ⟨rfl, hk'⟩ := hk
+      simp only [keys, List.map_cons, List.nodup_cons] at hnd
+      simp only [List.foldl_cons]
+      have : replaceKey k v ((k, v2) :: tl2) = (k, v) :: tl2 := by simp [replaceKey]
+      rw [this, foldl_replaceKey_cons tl k v tl2]
+      · rw [ih tl2 hk' hnd.2]
+      · intro kv hkv e
+        exact hnd.1 (List.mem_map.mpr ⟨kv, hkv, e⟩)
+
+theorem planBase_flat_aux (names : List Key) (kvs : KW) (acc : Plan)
+    (hc : ∀ kv ∈ kvs, cleanName kv.1 = true ∧ names.contains kv.1 = true) :
+    kvs.foldlM (baseStep names) acc
+    = .ok { kw := kvs.foldl (fun a kv => replaceKey kv.1 kv.2 a) acc.kw, groups := acc.groups } := by
+  induction kvs generalizing acc with
+  | nil => rfl
+  | cons hd tl ih =>
+    obtain ⟨h1, h2⟩ := hc hd (by simp)
+    simp only [List.foldlM, baseStep, splitFirst_clean_none _ h1, h2, ↓reduceIte, bind, Except.bind, List.foldl_cons]
+    rw [ih _ (fun kv hkv => hc kv (by simp [hkv]))]
+
+theorem planBase_flat (kw1 kw2 : KW) (hk : keys kw1 = keys kw2) (hnd : (keys kw1).Nodup)
+    (hc : (keys kw1).all cleanName = true) :
+    planBase kw2 kw1 = .ok { kw := kw1, groups := [] } := by
+  unfold planBase
+  rw [planBase_flat_aux (keys kw2) kw1 { kw := kw2, groups := [] }]
+  · simp [foldl_replaceKey_all kw1 kw2 hk hnd]
+  · intro kv hkv
+    have hm : kv.1 ∈ keys kw1 := List.mem_map.mpr ⟨kv, hkv, rfl⟩
+    simp only [List.all_eq_true] at hc
+    exact ⟨hc _ hm, by rw [← hk]; simpa using hm⟩
+
+theorem nested_flat_base (kw : KW) (h : kw.all (fun kv => !isEst kv.2) = true) :
+    nestedOf .base (kw.map (fun kv => (kv.1, deepOf kv.2))) = [] := by
+  simp only [nestedOf, List.flatMap_eq_nil_iff, List.mem_map]
+  rintro kd ⟨kv, hkv, rfl⟩
+  simp only [List.all_eq_true] at h
+  have := h kv hkv
+  cases hv : kv.2 <;> simp [hv, isEst, deepOf] at this ⊢
+
+/-- transfer between two instances of the same class shape without nested estimators (scikit-learn protocol) -/
+theorem transfer_flat_base (i1 i2 : Nat) (c : String) (p : Proto) (f1 f2 : Bool) (kw1 kw2 : KW)
+    (hp : p = .base ∨ p = .anmf) (hk : keys kw1 = keys kw2) (hw : shapeOk p kw1 = true)
+    (hflat : kw1.all (fun kv => !isEst kv.2) = true) :
+    setParams (.est i2 c p f2 kw2) (getParams (.est i1 c p f1 kw1) true) = .ok (.est i2 c p f2 kw1, true) := by
+  have hgp : getParams (.est i1 c p f1 kw1) true = kw1 := by
+    rw [getParams_est]
+    rcases hp with rfl | rfl
+    · simp [nested_flat_base kw1 hflat]
+    · simp [nestedOf]
+  have hnd := nodup_of_shape p kw1 hw
+  have hc : (keys kw1).all cleanName = true := by
+    rcases hp with rfl | rfl <;>
+    · simp only [shapeOk, Bool.and_eq_true] at hw; exact hw.2
+  rw [hgp]
+  unfold setParams
+  cases hkw : kw1 with
+  | nil =>
+    have : kw2 = [] := by
+      subst hkw; cases kw2 with
+      | nil => rfl
+      | cons _ _ => simp [keys] at hk
+    subst this
+    rcases hp with rfl | rfl <;> simp [setPF, maxKeyLen, Except.map, protoOf] <;> rfl
+  | cons hd tl =>
+    rw [← hkw]
+    have hne : kw1.isEmpty = false := by subst hkw; rfl
+    rw [setPF_step (maxKeyLen kw1) i2 c p f2 kw2 kw1 { kw := kw1, groups := [] } none kw1 kw1 hne ?_ rfl rfl]
+    · rcases hp with rfl | rfl <;> simp [Except.map, protoOf] <;> rfl
+    · rcases hp with rfl | rfl <;> simp only [planOf, planBase_flat kw1 kw2 hk hnd hc, Except.map]
+
+theorem foldl_upsert_eq (vals acc : KW) (h : ∀ kv ∈ vals, (keys acc).contains kv.1 = true) :
+    vals.foldl (fun a kv => upsert kv.1 kv.2 a) acc = vals.foldl (fun a kv => replaceKey kv.1 kv.2 a) acc := by
+  induction vals generalizing acc with
+  | nil => rfl
+  | cons hd tl ih =>
+    simp only [List.foldl_cons]
+    have h1 : upsert hd.1 hd.2 acc = replaceKey hd.1 hd.2 acc := by
+      have := h hd (by simp)
+      unfold upsert; rw [this]; rfl
+    rw [h1]
+    exact ih _ (fun kv hkv => by rw [keys_replaceKey]; exact h kv (by simp [hkv]))
+
+/-- transfer between two `SkBase` objects that store the same parameter names -/
+theorem transfer_skbase (i1 i2 : Nat) (c : String) (f1 f2 : Bool) (kw1 kw2 : KW)
+    (hk : keys kw1 = keys kw2) (hw : shapeOk .skbase kw1 = true) :
+    setParams (.est i2 c .skbase f2 kw2) (getParams (.est i1 c .skbase f1 kw1) true)
+      = .ok (.est i2 c .skbase f2 kw1, true) := by
+  have hgp : getParams (.est i1 c .skbase f1 kw1) true = kw1 := by
+    rw [getParams_est]; simp [nestedOf]
+  have hnd := nodup_of_shape _ kw1 hw
+  have hn : (keys kw1).all skNameOk = true := by
+    simp only [shapeOk, Bool.and_eq_true] at hw; exact hw.2
+  have hu : skbaseSetUpdates = true := rfl
+  have hset : skbaseSet kw2 kw1 = .ok kw1 := by
+    unfold skbaseSet
+    simp only [hu, ↓reduceIte]
+    rw [foldl_upsert_eq kw1 kw2 (fun kv hkv => by
+      have hm : kv.1 ∈ keys kw1 := List.mem_map.mpr ⟨kv, hkv, rfl⟩
+      rw [← hk]; simpa using hm), foldl_replaceKey_all kw1 kw2 hk hnd]
+    simp [hn]
+  rw [hgp]
+  unfold setParams
+  cases hkw : kw1 with
+  | nil =>
+    have : kw2 = [] := by
+      subst hkw; cases kw2 with
+      | nil => rfl
+      | cons _ _ => simp [keys] at hk
+    subst this
+    simp [setPF, maxKeyLen, Except.map, protoOf]; rfl
+  | cons hd tl =>
+    rw [← hkw]
+    have hne : kw1.isEmpty = false := by subst hkw; rfl
+    rw [setPF_step (maxKeyLen kw1) i2 c .skbase f2 kw2 kw1 { kw := kw1, groups := [] } none kw1 kw1 hne ?_ rfl rfl]
+    · simp [Except.map, protoOf]; rfl
+    · simp only [planOf, hset, Except.map]
 
 end MlVerif.Params
